@@ -128,6 +128,162 @@ class Driver(object):
             d[key] = self.value(rnd, depth - 1)
         return d
 
+    # ---- round trip: real publish -> reference broker -> real consumer ----
+    SPECS = {'roundtrip': dict(
+        header='From AV Require Import Lib.Base Model.Decode Model.RoundTrip.\nLocal Open Scope N_scope.',
+        tin='rt_in', tobs='rt_obs', eqb='rt_eqb', model='rt_model', prop='rt_prop_ok',
+        nontriv='rt_nontrivial')}
+
+    def norm(self, x):
+        """text -> its UTF-8 bytes, recursively (what the wire carries)"""
+        if isinstance(x, str):
+            return x.encode('utf-8')
+        if isinstance(x, dict):
+            # field tables are unordered: compare them by sorted key
+            return dict(sorted(((self.norm(k), self.norm(v)) for k, v in x.items()),
+                               key=lambda kv: repr(kv[0])))
+        import time as _time
+        if isinstance(x, datetime.datetime):
+            return list(x.timetuple()[:6])          # the instant, to the second
+        if isinstance(x, _time.struct_time):
+            return list(x[:6])
+        if isinstance(x, (list, tuple)):
+            return [self.norm(v) for v in x]
+        return x
+
+    @staticmethod
+    def compact(b):
+        """bytes -> Coq term; a long trailing run of one byte is written as `repeat`"""
+        b = bytes(b)
+        k = 0
+        while k < len(b) and b[len(b) - 1 - k] == b[-1]:
+            k += 1
+        if k < 64:
+            return '([%s]%%N)' % ';'.join(str(x) for x in b)
+        head = b[:len(b) - k]
+        return '(([%s]%%N) ++ repeat %d%%N (N.to_nat %d%%N))' % (
+            ';'.join(str(x) for x in head), b[-1], k)
+
+    @staticmethod
+    def compact_text(t):
+        k = 0
+        while k < len(t) and t[len(t) - 1 - k] == t[-1]:
+            k += 1
+        if k < 64:
+            return '([%s]%%N)' % ';'.join(str(ord(c)) for c in t)
+        return '(([%s]%%N) ++ repeat %d%%N (N.to_nat %d%%N))' % (
+            ';'.join(str(ord(c)) for c in t[:len(t) - k]), ord(t[-1]), k)
+
+    def case_roundtrip(self, body, props, fmax):
+        from pamqp import specification as spec
+        from harness import vconn, vrt
+        op = Opaque()
+        enc = props.get('content_encoding', 'utf-8') if isinstance(body, str) else None
+        raw_body = body.encode(enc) if isinstance(body, str) else bytes(body)
+        as_text = isinstance(body, str) and enc.lower().replace('_', '-') in ('utf-8', 'utf8')
+        exp = dict(props)
+        exp.setdefault('content_encoding', 'utf-8')     # publish's documented default (C04)
+        wanted = sorted((PROPS.index(k), self.norm(v)) for k, v in exp.items())
+        cin = ('{| ri_body := %s; ri_text := %s; ri_props := %s; ri_fmax := %d%%N |}' % (
+            self.compact(raw_body),
+            ('(Some %s)' % self.compact_text(body)) if as_text else 'None',
+            coq_list(['(%d%%N, %s)' % (i, to_pv(v, op)) for i, v in wanted]), fmax))
+        bad = ('{| ro_ok := false; ro_raw := []; ro_decoded := PNone; ro_props := []; '
+               'ro_frames := []; ro_extra := 0%nat |}')
+        meta = dict(kind='roundtrip', body=repr(body)[:60], props=repr(props)[:200], fmax=fmax)
+        try:
+            rt, br, conn = vconn.open_connection(dict(frame_max=fmax))
+            pub = conn.channel(rpc_timeout=2)
+            con = conn.channel(rpc_timeout=2)
+            got = []
+            con.basic.consume(got.append, 'q', consumer_tag='rt')
+            sizes = []
+            stash = {}
+
+            def on_body(b, ch, fr):
+                sizes.append(len(fr.value))
+                stash.setdefault('bodies', []).append(fr)
+                return False
+
+            def on_header(b, ch, fr):
+                stash['header'] = fr
+                return False
+
+            def forward(b, ch, m, h, bdy):
+                # the consumer gets exactly the frames the publisher produced
+                b.send(con.channel_id, spec.Basic.Deliver(consumer_tag='rt', delivery_tag=1,
+                                                          exchange=m.exchange,
+                                                          routing_key=m.routing_key))
+                b.send(con.channel_id, stash['header'])
+                for fr in stash.get('bodies', []):
+                    b.send(con.channel_id, fr)
+            br.handlers['ContentBody'] = on_body
+            br.handlers['ContentHeader'] = on_header
+            br.handlers['@published'] = forward
+            pub.basic.publish(body, 'rk', properties=dict(props))
+            vconn.settle(rt, 3)
+            con.process_data_events()
+            vconn.settle(rt, 2)
+            extra = len(con._inbound)
+            if len(got) != 1 or br.parse_error is not None or br.violations:
+                # also: everything the publisher wrote must have been well-formed frames the
+                # broker expected (an empty body frame after a complete body is neither)
+                meta['broker'] = repr((br.parse_error, br.violations))[:300]
+                cobs = bad
+            else:
+                m = got[0]
+                recv = sorted((PROPS.index(k), self.norm(v)) for k, v in m._properties.items()
+                              if k in PROPS and v not in (None, '', b'') or k in props)
+                cobs = ('{| ro_ok := true; ro_raw := %s; ro_decoded := %s; ro_props := %s; '
+                        'ro_frames := %s; ro_extra := %d%%nat |}' % (
+                            self.compact(m._body),
+                            ('PStr %s' % self.compact_text(m.body)) if isinstance(m.body, str)
+                            else (('PBytes %s' % self.compact(m.body))
+                                  if isinstance(m.body, (bytes, bytearray)) else to_pv(m.body, op)),
+                            coq_list(['(%d%%N, %s)' % (i, to_pv(v, op)) for i, v in recv]),
+                            coq_list(['%d%%N' % n for n in sizes]), extra))
+            try:
+                conn.close()
+            except Exception:
+                pass
+        except Exception as why:
+            cobs = bad
+            meta['error'] = repr(why)
+        return dict(spec='roundtrip', cin=cin, cobs=cobs, meta=meta)
+
+    def gen_roundtrip(self, rnd):
+        fmax = rnd.choice([4096, 4096, 8192, 131072])
+        if fmax == 131072 and rnd.random() < 0.7:
+            fmax = 4096
+        slice_ = fmax - 8
+        k = rnd.random()
+        if k < 0.35:
+            n = rnd.choice([0, 1, 7, slice_ - 1, slice_, slice_ + 1, 2 * slice_, 2 * slice_ + 3])
+            body = bytes(rnd.randrange(256) for _ in range(min(n, 20))) + b'z' * max(0, n - 20)
+        elif k < 0.7:
+            body = rnd.choice(['', 'plain text', 'héllo wörld', '雪' * rnd.randrange(1, 40),
+                               '\U0001F600 ok', 'x' * rnd.choice([slice_, slice_ + 1])])
+        else:
+            body = rnd.choice(VALID + INVALID + [b''])
+        props = {}
+        strs = ['v', 'text/plain', 'é', 'a b', 'x' * 200, b'raw', 'id-%d' % rnd.randrange(99)]
+        for key in rnd.sample(PROPS, rnd.randrange(0, 8)):
+            if key == 'headers':
+                props[key] = {'k': rnd.choice(['v', 7, True, b'b']), 'n': {'deep': 'é'},
+                              'l': [1, 'two']} if rnd.random() < 0.7 else {}
+            elif key in ('delivery_mode', 'priority'):
+                props[key] = rnd.choice([1, 2, 0, 9])
+            elif key == 'timestamp':
+                props[key] = datetime.datetime(2021, 3, 4, 5, 6, rnd.randrange(60))
+            else:
+                props[key] = rnd.choice(strs)
+        if isinstance(body, str) and 'content_encoding' in props:
+            # a text body is encoded with the codec content_encoding names
+            props['content_encoding'] = rnd.choice(['utf-8', 'utf-8', 'utf-16', 'latin-1'])
+            if props['content_encoding'] == 'latin-1':
+                body = body.encode('latin-1', 'replace').decode('latin-1')
+        return body, props, fmax
+
     # ---- cases ----
     def case_read(self, auto, body, method, props, fields):
         from amqpstorm.message import Message
@@ -239,6 +395,8 @@ class Driver(object):
                 rnd.random() < 0.7, rnd.choice([None, {}, self.gen_dict(rnd, 2)]),
                 rnd.random() < 0.5, rnd.choice(SETTERS),
                 rnd.choice(['v', b'v', 'é'.encode(), b'\xff', 5, None, 1.5])))
+        for _ in range(60 if tier == 'quick' else 600):
+            out.append(self.case_roundtrip(*self.gen_roundtrip(rnd)))
         return out
 
     def replay_cases(self, doc):
